@@ -35,7 +35,6 @@ type Op struct {
 	Fin    []Op   `json:"fin,omitempty"`
 	HasC   bool   `json:"hc,omitempty"`
 	HasF   bool   `json:"hf,omitempty"`
-	Legacy string `json:"-"`
 }
 
 // Method is one ABI method "m<i>" of a generated contract.
